@@ -65,6 +65,13 @@ EdgeYs(e1, e2, x) ==
 PolyRange(pts, x) ==
   LET ys == UNION {EdgeYs(pts[k], pts[k + 1], x) : k \in 1..(Len(pts) - 1)} IN
   IF ys = {} THEN <<0, 0>> ELSE <<SetMin(ys), SetMax(ys)>>
+\* AR:111-112 / AR:153-154 take `.coords` of the intersection.  When the vertical line runs along a polygon edge that is
+\* not the leftmost / rightmost one, shapely returns a multi-part geometry and `.coords` raises NotImplementedError
+\* (observed: PQArea4110 at p = 0.05 exactly).  Named deviation: the step then does not complete.
+VertInterior(pts, x) == /\ \E k \in 1..(Len(pts) - 1) : pts[k][1] = x /\ pts[k + 1][1] = x /\ pts[k] # pts[k + 1]
+                        /\ \E k \in 1..Len(pts) : pts[k][1] < x
+                        /\ \E k \in 1..Len(pts) : pts[k][1] > x
+PolyRaises(a, p, v) == a \in PolyAreas /\ (VertInterior(PQPoly(a), p) \/ VertInterior(QVPoly(a), v))
 \* PQArea4120.q_flexibility AR:236-246 (version 2018: p points 0.05, 0.2; 2015: 0.1, 0.2; AR:210)
 P0(a) == IF a = "a4120v2y15" THEN 1000 ELSE 500
 P1(a) == 2000
@@ -107,7 +114,7 @@ StepQ(qm, qarg, q, p, v) ==
 (* el = [p, q] current setpoints (bp), qarg the element's q-model argument; c = [area, rmo, qm, s, qprio, d, v]           *)
 PSeries(p) == IF p < 0 THEN 0 ELSE p                 \* DC:161, :166-168 (in place: self.p_mw itself is set to 0)
 Requested(c, el, qarg) == StepQ(c.qm, qarg, el.q, PSeries(el.p), c.v)
-Raises(c, el) == FlexRaises(c.area, c.rmo, PSeries(el.p), c.v)
+Raises(c, el) == FlexRaises(c.area, c.rmo, PSeries(el.p), c.v) \/ PolyRaises(c.area, PSeries(el.p), c.v)
 \* _saturate DC:198-212, area part: q outside the area is moved to the nearest bound (clipping an inside value is the
 \* identity, so the in_area test of DC:203-204 does not change the result — ClipIdempotent in Der.tla)
 Clipped(c, el, qarg) ==
@@ -130,8 +137,11 @@ Target(c, el, qarg) == LET pp == PSeries(el.p) q1 == Clipped(c, el, qarg) IN [p 
 Damped(c, el, qarg) ==
   LET t == Target(c, el, qarg) pp == PSeries(el.p) IN
   [p |-> pp + DivT(t.p - pp, c.d), q |-> el.q + DivT(t.q - el.q, c.d)]
-\* is_converged DC:143-148 (at the model's resolution: the damped target equals the current setpoint)
-Settled(c, el, qarg) == Damped(c, el, qarg) = [p |-> el.p, q |-> el.q]
+\* is_converged DC:143-148 (at the model's resolution: the damped target equals the current setpoint).  DC:161 binds
+\* p_series_mw to the very Series self.p_mw and DC:168 clamps it IN PLACE, so the comparison of DC:148 sees the clamped
+\* value: a negative p_mw alone never makes the controller act, and then stays in net.sgen (named deviation; harmless for
+\* the property: every area and the circle treat p < 0 like p = 0 or more leniently).
+Settled(c, el, qarg) == LET dm == Damped(c, el, qarg) IN dm.p = PSeries(el.p) /\ dm.q = el.q
 
 (* ---- what the property requires of a setpoint ------------------------------------------------------------------------ *)
 \* cs / as: slack of the circle (added to s^2) and of the q interval (bp); 0 = exact
